@@ -26,3 +26,5 @@ m.setdefault('rechecks', []).extend(res.split())
 json.dump(m, open(p, 'w'), indent=1)
 PY
 ( cd /verif && python3 tools/leafgen.py >/dev/null 2>&1 )
+# the private build areas of the experiments are not kept
+rm -rf /verif/build/exp_* 2>/dev/null
